@@ -30,8 +30,8 @@ AtCompute == l > 1 /\ Last.a = "C"
 \* the reference configuration logged by the harness is the one the model expects
 CfgMatches == AtCompute =>
     /\ result.kind = "layout"
-    /\ Last.cfg = [base |-> result.base, mx |-> result.opts.mx, ns |-> result.opts.ns,
-                   alg |-> result.opts.alg, sw |-> result.opts.sw]
+    /\ Last.cfg = [base |-> result.base, mx |-> result.opts.mx, mn |-> result.opts.mn, ns |-> result.opts.ns,
+                   alg |-> result.opts.alg, sw |-> result.opts.sw, dn |-> result.opts.dn]
 \* C06: same layer and position for every label as a fresh engine on fresh labels
 C06_Pure == AtCompute => Last.res = Last.ref
 C06_Defined == AtCompute => Last.err = ""
